@@ -26,7 +26,9 @@ func init() {
 	// names that look like paths: a bookmark name is whatever follows the '@', also when it contains separators or dots
 	c19NamePool = append(c19NamePool, "clients/acme", "a/b/c", "dot.klg", "../up", "x:y", "@clients/acme")
 	// names that differ in letter case only, and names whose byte order and case-folded order differ
-	c19NamePool = append(c19NamePool, "Work", "work", "WORK", "Zeta", "zeta", "Alpha", "home", "Home", "Default", "DEFAULT", "default", "@Default")
+	c19NamePool = append(c19NamePool, "Work", "work", "WORK", "Zeta", "zeta", "Alpha", "home", "Home", "Default", "DEFAULT", "default", "@Default",
+		// blanks at the edges are part of a name
+		"w ", " w", "w", "nb\u00a0", "tab\t", "\u3000wide")
 }
 
 // c19RandomName draws an arbitrary valid-UTF-8 name (1-8 characters) that does not start with '-' and does not contain " -> " or a newline.
@@ -39,7 +41,7 @@ func c19RandomName(r *core.Rand) string {
 			sb.WriteString(alphabet[r.Intn(len(alphabet))])
 		}
 		s := sb.String()
-		if strings.HasPrefix(s, "-") || strings.Contains(s, " -> ") || strings.TrimLeft(s, "@") == "" || strings.TrimSpace(s) != s {
+		if strings.HasPrefix(s, "-") || strings.Contains(s, " -> ") || strings.TrimLeft(s, "@") == "" || strings.HasPrefix(strings.TrimLeft(s, "@"), "-") {
 			continue
 		}
 		return s
@@ -381,6 +383,25 @@ func c19History(e *core.Env, r *core.Rand, idx int64) {
 					return
 				}
 				e.Count("two_bookmark_argument_probes", 1)
+				// a repeated prefix (`@@name`) names the same bookmark, and the bare `@` the default one
+				code, out, _, ok = run("total", "--decimal", "--no-style", "--no-warn", "@@"+k1)
+				if !ok {
+					return
+				}
+				if to, perr := parseTotalOutput(out); code != 0 || perr != nil || to.Total != strconv.Itoa(t1) {
+					e.Violation("bookmark-resolution-wrong", fmt.Sprintf("`klog total @@%s` (exit %d) printed %q; `bookmarks info @@%s` names the file whose total is %d", k1, code, trunc(out, 200), k1, t1), w())
+					return
+				}
+				if td := totalOf(model["default"]); td >= 0 {
+					code, out, _, ok = run("total", "--decimal", "--no-style", "--no-warn", "@")
+					if !ok {
+						return
+					}
+					if to, perr := parseTotalOutput(out); code != 0 || perr != nil || to.Total != strconv.Itoa(td) {
+						e.Violation("default-bookmark-resolution-wrong", fmt.Sprintf("`klog total @` (exit %d) printed %q; @default points to the file whose total is %d", code, trunc(out, 200), td), w())
+						return
+					}
+				}
 			}
 			// `klog edit @name` hands the editor exactly the bookmark's path, as one argument
 			if editorCfg != "" && !strings.HasPrefix(k1, "-") && totalOf(model[k1]) >= 0 {
